@@ -492,3 +492,64 @@ def hole_fill_rule(chk, cid, prog, p, cfgname):
     if total < 4:
         raise AnalysisBroken('hole_fill_rule(%s): %d compaction copies found, expected >= 4' % (p, total))
     return total
+
+
+def partition_complement_rule(chk, cid, prog, cfgname):
+    """?qselect partitions around a pivot value with two scans, each followed by a conditional move:
+        for (; A[i] >= val && i < p; i++);   if (A[i] < val) { A[p] = A[i]; p = i; }
+    When a scan stops before the hole (i < p) its element test is false, and the partition loop `while (i < j)` only makes progress if the
+    move then happens: the move test must be the exact negation of the scan's element test (>= / <, <= / >).  With a strict scan test an
+    element equal to the pivot value stops the scan, is not moved, and the loop never ends (ties are the normal case in dropping: equal
+    magnitudes).  Values are only compared, so the rule is exact on the comparison operators."""
+    from ..facts import strip, canon, loc
+    from ..ir import pretty
+    from ..run import AnalysisBroken
+    NEG = {'>=': '<', '<=': '>', '>': '<=', '<': '>=', '==': '!=', '!=': '=='}
+    n = 0
+    for fname in ('dqselect', 'sqselect'):
+        f = prog.func(fname)
+        if f is None:
+            raise AnalysisBroken('%s not found' % fname)
+        chk.saw(unit=f.unit, func=f.unit + ':' + f.name)
+        for blk in f.body.walk():
+            if blk.k != 'Block':
+                continue
+            for k, st in enumerate(blk.c[:-1]):
+                if st.k != 'For' or st.c[1] is None:
+                    continue
+                body = st.c[3]
+                if body is not None and any(x.k in ('Assign', 'Call') for x in body.walk()):
+                    continue            # only pure scans
+                nxt = blk.c[k + 1]
+                if nxt.k != 'If':
+                    continue
+                elem = None
+                for c in _conj(st.c[1]):
+                    c = strip(c)
+                    if c.k == 'Binary' and c.a['op'] in NEG and strip(c.c[0]).k == 'Index':
+                        elem = c
+                if elem is None:
+                    continue
+                mv = strip(nxt.c[0])
+                n += 1
+                inst = '%s:scan-and-move-are-complements@%d' % (fname, n)
+                want = (canon(elem.c[0]), NEG[elem.a['op']], canon(elem.c[1]))
+                got = (canon(mv.c[0]), mv.a.get('op'), canon(mv.c[1])) if mv.k == 'Binary' else None
+                if got == want:
+                    chk.ok(cid, inst, sample='scan while `%s`, move if `%s`' % (pretty(elem), pretty(mv)))
+                else:
+                    chk.violate(cid, inst, loc(f, st), fname,
+                                'the scan runs while `%s` and the move that follows happens if `%s`: these are not complements, so an element for which '
+                                'neither holds (equal to the pivot value) stops the scan without being moved and the partition loop makes no progress'
+                                % (pretty(elem), pretty(mv)), cfgname=cfgname)
+    if n < 4:
+        raise AnalysisBroken('partition_complement_rule: %d scan/move pairs found, expected 4' % n)
+    return n
+
+
+def _conj(e):
+    from ..facts import strip
+    e = strip(e)
+    if e.k == 'Binary' and e.a['op'] == '&&':
+        return _conj(e.c[0]) + _conj(e.c[1])
+    return [e]
